@@ -51,6 +51,18 @@ pub struct CompressSubject {
     pub spec: Value,
 }
 
+/// Two library writers alive at once in one task (`join`): whatever the two calls share outside their
+/// arguments (a temp path, a static buffer) shows as an archive that differs from the one written alone.
+pub struct PairSubject {
+    pub judge: Judge,
+    pub cfg: Cfg,
+    pub comp: Comp,
+    pub hash_len: usize,
+    pub buffers: usize,
+    pub sources: [Vec<u8>; 2],
+    pub spec: Value,
+}
+
 pub struct CloneSubject {
     pub cfg: Cfg,
     pub comp: Comp,
@@ -76,6 +88,9 @@ pub fn comp_from_str(s: &str) -> Comp {
 pub fn compress_spec(kind: &str, cfg: &Cfg, comp: &Comp, hash_len: usize, buffers: usize, source: &[u8]) -> Value {
     json!({"kind": kind, "cfg": cfg.json(), "comp": format!("{:?}", comp), "hash_len": hash_len, "buffers": buffers, "source": hex(source)})
 }
+pub fn pair_spec(cfg: &Cfg, comp: &Comp, hash_len: usize, buffers: usize, source: &[u8], source2: &[u8]) -> Value {
+    json!({"kind": "lib-compress-pair", "cfg": cfg.json(), "comp": format!("{:?}", comp), "hash_len": hash_len, "buffers": buffers, "source": hex(source), "source2": hex(source2)})
+}
 pub fn clone_spec(cfg: &Cfg, comp: &Comp, hash_len: usize, buffers: usize, source: &[u8], seed: Option<&[u8]>, prior: Option<&[u8]>, seed_output: bool, verify_output: bool) -> Value {
     json!({"kind": "cli-clone", "cfg": cfg.json(), "comp": format!("{:?}", comp), "hash_len": hash_len, "buffers": buffers, "source": hex(source),
         "seed": seed.map(hex), "prior": prior.map(hex), "seed_output": seed_output, "verify_output": verify_output})
@@ -98,6 +113,15 @@ pub fn subject_from_spec(v: &Value) -> Box<dyn Subject> {
             prior: v["prior"].as_str().map(unhex),
             seed_output: v["seed_output"].as_bool().unwrap_or(false),
             verify_output: v["verify_output"].as_bool().unwrap_or(false),
+            spec: v.clone(),
+        }),
+        "lib-compress-pair" => Box::new(PairSubject {
+            judge: Judge::from_str(v["judge"].as_str().unwrap_or("nothing")),
+            cfg,
+            comp,
+            hash_len,
+            buffers,
+            sources: [source, unhex(v["source2"].as_str().unwrap())],
             spec: v.clone(),
         }),
         k => Box::new(CompressSubject { judge: Judge::from_str(v["judge"].as_str().unwrap_or("nothing")), kind: k.to_string(), cfg, comp, hash_len, buffers, source, spec: v.clone() }),
@@ -262,6 +286,78 @@ impl Subject for CompressSubject {
                 } else {
                     judge_archive(&bytes, &self.source, &self.cfg, &self.comp, self.hash_len, &[], self.judge)
                 }
+            }
+        };
+        Observation { key, violation }
+    }
+}
+
+
+impl Subject for PairSubject {
+    fn describe(&self) -> Value {
+        self.spec.clone()
+    }
+    fn setup(&self, dir: &Path) {
+        let rt = new_rt();
+        for (i, src) in self.sources.iter().enumerate() {
+            std::fs::write(dir.join(format!("src{i}.bin")), src).unwrap();
+            // the archive of each source written ALONE (in memory, plain runtime) is the reference
+            let arch = build_arch(&rt, &self.cfg, self.hash_len, &self.comp, src, self.buffers).expect("reference archive");
+            std::fs::write(dir.join(format!("ref{i}.cba")), &arch.bytes).unwrap();
+        }
+    }
+    fn reset(&self, dir: &Path) {
+        for i in 0..2 {
+            let _ = std::fs::remove_file(dir.join(format!("out{i}.cba")));
+        }
+    }
+    fn future(&self, dir: &Path) -> BoxFut {
+        let mk = |i: usize| {
+            let opts = bitar::api::compress::CreateArchiveOptions {
+                chunker_config: self.cfg.to_bitar(),
+                num_chunk_buffers: self.buffers,
+                chunk_hash_length: self.hash_len,
+                temporary_file_override: None,
+                compression: self.comp.to_bitar(),
+                metadata: Default::default(),
+            };
+            let src = dir.join(format!("src{i}.bin"));
+            let out = dir.join(format!("out{i}.cba"));
+            async move {
+                let input = tokio::fs::File::open(&src).await.map_err(|e| e.to_string())?;
+                let mut output = tokio::fs::File::create(&out).await.map_err(|e| e.to_string())?;
+                bitar::api::compress::create_archive(input, &mut output, &opts).await.map_err(|e| format!("{e}"))?;
+                use tokio::io::AsyncWriteExt;
+                output.flush().await.map_err(|e| e.to_string())?;
+                Ok::<(), String>(())
+            }
+        };
+        let (a, b) = (mk(0), mk(1));
+        Box::pin(async move {
+            let (ra, rb) = futures_util::future::join(a, b).await;
+            ra?;
+            rb
+        })
+    }
+    fn observe(&self, dir: &Path, result: &Result<(), String>) -> Observation {
+        let outs: Vec<Vec<u8>> = (0..2).map(|i| std::fs::read(dir.join(format!("out{i}.cba"))).unwrap_or_default()).collect();
+        let refs: Vec<Vec<u8>> = (0..2).map(|i| std::fs::read(dir.join(format!("ref{i}.cba"))).unwrap_or_default()).collect();
+        let key = format!("{}|len={}+{}|fnv={:016x}+{:016x}", if result.is_ok() { "ok" } else { "err" }, outs[0].len(), outs[1].len(), fnv(&outs[0]), fnv(&outs[1]));
+        let violation = match result {
+            Err(e) => Some((if e.starts_with("panic at") { format!("panic@{}", panic_site(e)) } else { "valid-compress-failed".to_string() }, json!({"error": e, "writers": "two library writers joined in one task"}))),
+            Ok(()) => {
+                let mut v = None;
+                for i in 0..2 {
+                    if outs[i] != refs[i] {
+                        v = Some(("archive-differs-when-two-writers-run-concurrently".to_string(), json!({"writer": i, "archive_len": outs[i].len(), "alone_len": refs[i].len()})));
+                        break;
+                    }
+                    if let Some(x) = judge_archive(&outs[i], &self.sources[i], &self.cfg, &self.comp, self.hash_len, &[], self.judge) {
+                        v = Some(x);
+                        break;
+                    }
+                }
+                v
             }
         };
         Observation { key, violation }
